@@ -10,10 +10,22 @@ def _fields(line):
     return dict(t.split("=", 1) for t in inp.split(" ")[1:] if "=" in t)
 
 
+def _hist_shape(f):
+    """(C, kinds of the ops in order, pipelines used) of a history case"""
+    ops = f.get("ops", "").split(",")
+    return (f.get("C"), "".join(o[:1] for o in ops), ",".join(sorted(set(o.split(".")[1] for o in ops if o[:1] in "SR"))))
+
+
 def nontrivial(line):
     # distinct (alphabet, C, L mod C class, M, has -inf, sub-range?, wrap kind) with L >= M
-    # and at least two distinct symbols in the sequence
+    # and at least two distinct symbols in the sequence; a history case counts when it has at least two
+    # scoring calls and one other step: distinct (C, op kinds in order, pipelines)
     f = _fields(line)
+    if "hist" in f:
+        shape = _hist_shape(f)
+        if sum(1 for k in shape[1] if k in "SR") >= 2 and len(shape[1]) >= 3:
+            return ("hist",) + shape
+        return None
     try:
         m, l, c = int(f["M"]), int(f["L"]), int(f["C"])
     except (KeyError, ValueError):
@@ -27,6 +39,10 @@ def nontrivial(line):
 
 def histogram(line):
     f = _fields(line)
+    if "hist" in f:
+        shape = _hist_shape(f)
+        return ["history", "C=%s" % shape[0], "history-ops<=%d" % (4 * ((len(shape[1]) + 3) // 4)),
+                "history-mixed-alphabets" if ("dna:" in f.get("ms", "") and "prot:" in f.get("ms", "")) else "history-one-alphabet"]
     try:
         m, l, c = int(f["M"]), int(f["L"]), int(f["C"])
     except (KeyError, ValueError):
@@ -42,9 +58,10 @@ def histogram(line):
 
 
 _COQ_DIR = os.path.join(os.path.dirname(os.path.dirname(os.path.abspath(__file__))), "coq", "score")
-_BASE_FILES = ["ScoreModel.v", "SimdModel.v", "GenAvx2.v", "GenLane4.v", "ScoreCheck.v", "ScoreProofs.v",
+_BASE_FILES = ["ScoreModel.v", "SimdModel.v", "GenAvx2.v", "GenLane4.v", "GenScores.v", "ScoresModel.v",
+               "ScoreCheck.v", "ScoreProofs.v",
                "SimdProofs.v", "Sse2Proofs.v", "F32Proofs.v", "CheckProofs.v", "ReadmeExample.v", "C01.v",
-               "Extract.v"]
+               "ScoresProofs.v", "C01Scores.v", "Extract.v"]
 # the only files that depend on another model group (coq/stripe, property C04)
 _BRIDGE_FILES = ["StripeBridge.v", "C01History.v"]
 
@@ -67,12 +84,14 @@ def translate():
     # GenAvx2.v (AVX2 lane tables, dispatcher table) and GenLane4.v (SSE2 / NEON interleaving
     # paths and store offsets; presence of the wrapper guards).  _CoqProject is (re)written with
     # the composition with the striping model of C04 (coq/stripe, finished and stable) included.
-    from translate import score_avx2, score_lane4
-    a, b = score_avx2.run(), score_lane4.run()
+    # GenScores.v: the statement skeleton of StripedScores::{resize, empty, is_empty, offset, iter,
+    # unstripe, Index} and of its iterator (scores.rs).
+    from translate import score_avx2, score_lane4, score_scores
+    a, b, c = score_avx2.run(), score_lane4.run(), score_scores.run()
     _write_project(True)
-    return dict(ok=a.get("ok", True) and b.get("ok", True),
-                notes=a.get("notes", []) + b.get("notes", []),
-                errors=a.get("errors", []) + b.get("errors", []))
+    return dict(ok=a.get("ok", True) and b.get("ok", True) and c.get("ok", True),
+                notes=a.get("notes", []) + b.get("notes", []) + c.get("notes", []),
+                errors=a.get("errors", []) + b.get("errors", []) + c.get("errors", []))
 
 
 SPEC = dict(
@@ -80,7 +99,7 @@ SPEC = dict(
     group="score",
     props_file="C01.v",
     module="LMScore.C01",
-    more_props=[("C01History.v", "LMScore.C01History")],
+    more_props=[("C01History.v", "LMScore.C01History"), ("C01Scores.v", "LMScore.C01Scores")],
     harness_bin="score",
     ml_modules=["score_model"],
     n={"quick": 1200, "thorough": 16000},
